@@ -98,6 +98,15 @@ func (r *Reader) ReadPacketUsing(buf []byte) (pkt Packet, err error) {
 			return Packet{}, drpc.ProtocolError.Wrap(err)
 
 		case !ok:
+			// r.curr holds an incomplete frame. if what we have of it is
+			// already larger than any frame we would accept, reject it. this
+			// is checked against the incomplete frame only, and not against
+			// everything a single read happened to return, so that the result
+			// does not depend on how the transport chunks the bytes.
+			if len(r.curr)-maxFrameOverhead > r.opts.MaximumBufferSize {
+				return Packet{}, drpc.ProtocolError.New("data overflow")
+			}
+
 			// r.curr doesn't have enough data for a full frame, so prepend
 			// it to the read buffer if it is in the appropriate state.
 			if len(r.buf) == 0 {
@@ -120,10 +129,6 @@ func (r *Reader) ReadPacketUsing(buf []byte) (pkt Packet, err error) {
 				return Packet{}, drpc.ProtocolError.New("data overflow")
 			}
 			r.buf = r.buf[:ncap]
-
-			if len(r.buf)-maxFrameOverhead > r.opts.MaximumBufferSize {
-				return Packet{}, drpc.ProtocolError.New("data overflow")
-			}
 
 			r.curr = r.buf
 			continue
